@@ -189,3 +189,140 @@ def split_keys(s):
         elif out:
             out[-1] += ',' + piece
     return out
+
+
+# ---------------------------------------------------------------------------------------------------------------
+# write-time object checks (Model/Checks.lean): histories with reference edges between the objects
+
+REF_ATTRS = {   # holder kind -> [(attribute, admissible target kinds or None = any, multivalued)]
+    'channel': [('axis', ['axis'], True), ('long_name', ['long_name'], False), ('source', None, False)],
+    'tool': [('parts', ['equipment'], True), ('channels', ['channel'], True)],
+    'group': [('object_list', None, True), ('group_list', ['group'], True)],
+}
+CHECK_MSGS = [("No origin defined", 'no-origin'), ("No Origin defined", 'no-origin'), ("Origin not defined", 'no-origin'),
+              ("No channels defined", 'no-channels'), ("No frames defined", 'no-frames'),
+              ("has not been registered in file's channels", 'channel-not-registered'),
+              ("'file_id' of the Defining Origin", 'file-id'),
+              ("does not belong to the same logical file", 'foreign-reference'),
+              ("is shared between logical files", 'shared-set')]
+
+
+def gen_ref_history(R):
+    """objects of 1..3 logical files (sets named per logical file, sometimes shared), then reference assignments: mostly
+    within a logical file, sometimes across; some logical files lack an origin / a channel / a frame"""
+    n_lf = R.choice([1, 2, 2, 2, 3])
+    share = n_lf > 1 and R.random() < 0.12
+    ops = []
+    fid = []
+    for lf in range(n_lf):
+        sn = None if (share or n_lf == 1) else f'L{lf}'
+        sn2 = sn if R.random() < 0.6 else f'M{lf}'
+        lack = R.choice([None] * 8 + ['origin', 'channel', 'frame'])
+        fid.append(R.choice([None, None, 'same', 'same', 'OTHER']))
+        mine = []
+        for _ in range(0 if lack == 'origin' else R.choice([1, 1, 2])):
+            mine.append({'lf': lf, 'kind': 'origin', 'sn': R.choice([sn, sn2]), 'name': R.choice(['O', 'P']), 'oref': None, 'out': 'ok'})
+        for k in range(0 if lack == 'channel' else R.choice([1, 2, 3])):
+            # (two channels of one name in one frame are refused on purpose: distinct names within a logical file)
+            mine.append({'lf': lf, 'kind': 'channel', 'sn': R.choice([sn, sn, sn2]), 'name': f'C{k}', 'oref': None, 'out': 'ok'})
+        for _ in range(0 if lack == 'frame' else R.choice([1, 1, 2])):
+            mine.append({'lf': lf, 'kind': 'frame', 'sn': R.choice([sn, sn, sn2]), 'name': R.choice(['F', 'G']), 'oref': None, 'out': 'ok'})
+        for _ in range(R.choice([0, 2, 4, 6])):
+            mine.append({'lf': lf, 'kind': R.choice(['axis', 'long_name', 'equipment', 'tool', 'group', 'zone', 'group', 'tool']),
+                         'sn': R.choice([sn, sn, sn2]), 'name': R.choice(['A', 'B']), 'oref': None,
+                         'out': R.choice(['ok'] * 6 + ['late'])})
+        R.shuffle(mine)
+        ops.append(mine)
+    # interleave the logical files
+    merged = []
+    while any(ops):
+        lf = R.choice([i for i in range(n_lf) if ops[i]])
+        merged.append(ops[lf].pop(0))
+    # add_frame wants a channel at once: frames never come before the first channel of the whole file (what a frame
+    # holds in the end is assigned afterwards)
+    first_ch = next((i for i, o in enumerate(merged) if o['kind'] == 'channel'), None)
+    if first_ch is None:
+        merged = [o for o in merged if o['kind'] != 'frame']
+    else:
+        early = [o for o in merged[:first_ch] if o['kind'] == 'frame']
+        merged = [o for o in merged[:first_ch] if o['kind'] != 'frame'] + [merged[first_ch]] + early + merged[first_ch + 1:]
+    # reference assignments (holder / targets are indices into the ACCEPTED objects, resolved when applied)
+    acc = [o for o in merged if o['out'] == 'ok']
+    assigns = []
+    p_cross = R.choice([0.0, 0.0, 0.1, 0.3])
+    for hi, o in enumerate(acc):
+        if o['kind'] == 'frame':
+            own = [i for i, t in enumerate(acc) if t['kind'] == 'channel' and t['lf'] == o['lf']]
+            other = [i for i, t in enumerate(acc) if t['kind'] == 'channel' and t['lf'] != o['lf']]
+            picks = R.sample(own, R.randint(1, len(own))) if own else []
+            if other and (R.random() < p_cross or not picks):
+                picks.insert(R.randrange(len(picks) + 1), R.choice(other))
+            if picks:
+                assigns.append({'holder': hi, 'attr': 'channels', 'targets': picks, 'multi': True})
+        elif o['kind'] in REF_ATTRS and R.random() < 0.7:
+            attr, kinds, multi = R.choice(REF_ATTRS[o['kind']])
+            cands = [i for i, t in enumerate(acc) if (kinds is None or t['kind'] in kinds) and i != hi]
+            own = [i for i in cands if acc[i]['lf'] == o['lf']]
+            other = [i for i in cands if acc[i]['lf'] != o['lf']]
+            pool = other if (other and R.random() < p_cross) else own
+            if pool:
+                # (a channel has as many axes as dimensions: one)
+                picks = R.sample(pool, R.randint(1, min(3, len(pool)))) if (multi and attr != 'axis') else [R.choice(pool)]
+                assigns.append({'holder': hi, 'attr': attr, 'targets': picks, 'multi': multi})
+    return {'n_lf': n_lf, 'ops': merged, 'fid': fid, 'assigns': assigns}
+
+
+def chk_req(h):
+    edges = ','.join(f"{a['holder']}:{t}:{1 if a['attr'] == 'channels' else 0}" for a in h['assigns'] for t in a['targets'])
+    # FILE-ID values are attribute-level state outside the model's World: whether the defining origin of each logical
+    # file carries the header's ID is read off the live objects (`fid_bits`, set by apply_ref_history)
+    fid = h.get('fid_bits') or ''.join('0' if f == 'OTHER' else '1' for f in h['fid'])
+    return (f"chk {h['n_lf']} {KIDX['channel']} {KIDX['frame']} {fid} {edges or '-'} " +
+            ' '.join(op_token(o) for o in h['ops']))
+
+
+def apply_ref_history(h, path):
+    """build the objects, assign the references through the public setters, write -> 'ok' | 'err <tag>' | 'other:<text>'"""
+    df = DLISFile(set_identifier='REFS', max_record_length=8192)
+    lfs = [df.add_logical_file(fh_id=f'HDR{i}', fh_sequence_number=i + 1) for i in range(h['n_lf'])]
+    live = []
+    for op in h['ops']:
+        L = lfs[op['lf']]
+        kind = op['kind']
+        kw = {}
+        if op['sn'] is not None:
+            kw['set_name'] = op['sn']
+        if op['out'] == 'late':
+            kw.update(LATE_REJECT[kind][0])
+        if kind == 'origin':
+            kw['file_set_number'] = 7
+            kw['creation_time'] = '2020/01/01 00:00:00'
+        if kind == 'channel':
+            kw['data'] = np.arange(3, dtype=np.float64) + len(live)
+        if kind == 'frame':
+            kw['channels'] = [next(x for x in live if type(x).__name__ == 'ChannelItem')]
+        st, res = call(getattr(L, filegen.KINDS[kind][0]), op['name'], **kw)
+        if (st == 'ok') != (op['out'] == 'ok'):
+            return f'other:add_{kind} {st} where {op["out"]} was planned', None
+        if st == 'ok':
+            live.append(res)
+            if kind == 'origin' and h['fid'][op['lf']] == 'OTHER':
+                # add_origin takes the FILE-ID from the header; the user may assign another one afterwards
+                res.file_id.value = h['fid'][op['lf']]
+    for a in h['assigns']:
+        val = [live[t] for t in a['targets']]
+        try:
+            getattr(live[a['holder']], a['attr']).value = val if a['multi'] else val[0]
+        except Exception as exc:  # noqa
+            return f'other:assignment of {a["attr"]} refused: {type(exc).__name__} {exc}'[:300], None
+    h['fid_bits'] = ''.join('1' if (L.defining_origin is None or L.defining_origin.file_id.value == L.file_header.header_id)
+                            else '0' for L in lfs)
+    try:
+        df.write(path, output_chunk_size=2**20)
+    except Exception as exc:  # noqa
+        msg = str(exc)
+        for needle, tag in CHECK_MSGS:
+            if needle in msg:
+                return 'err ' + tag, live
+        return f'other:{type(exc).__name__} {msg}'[:300], live
+    return 'ok', live
